@@ -102,8 +102,13 @@ def oracle(chk, p, r, m):
         names = [x["name"] for x in mods]
         # providers in nearest-context-first order: the `spp*` modules (shape shadowed_provider) are leaves that are reached only
         # through the feature `spfeat`, so their order in the build is the order the providers of the feature were taken in
-        sp = [x for x in mods if x["name"].startswith("spp")]
-        if len(sp) >= 2:
+        sp = [x for x in mods if x["name"].startswith("spp") and "spfeat" in (x.get("provides") or [])]
+        # ... provided nothing else reaches them: no selected module (nor the command line) names an spp module, and they have no
+        # dependencies of their own (other shapes draw dependency names from all module names)
+        named = any(d[-1].startswith("spp") or d[1].startswith("spp") for x in mods for d in x["selects"]) or \
+            any(str(z).lstrip("?").startswith("spp") for z in (p.get("args", {}).get("select") or []))
+        leafs = all(not x["selects"] for x in mods if x["name"].startswith("spp"))
+        if len(sp) >= 2 and not named and leafs:
             chb = chain(par, b["builder"])
             pos = [chb.index(x["context"]) if x["context"] in chb else len(chb) for x in sp]
             chk.count("provider-order-checked")
